@@ -143,7 +143,9 @@ class Agg:
         self.prop_obligations = 0
 
     def mine(self, label):
-        return any(label.startswith(p) for p in self.prefixes)
+        # un-labelled panics of the code under test (index out of bounds, unwrap on None,
+        # arithmetic overflow ...) make the observable the property talks about undefined
+        return label == "panic" or any(label.startswith(p) for p in self.prefixes)
 
     def add(self, bundle, recs, err, secs, nontrivial_rule):
         if err:
